@@ -202,6 +202,12 @@ impl ControlHandle {
         })
     }
 
+    /// Construct a handle on top of a scripted device (verification only).
+    #[cfg(cameleon_verif)]
+    pub fn verif_new(device: &u3v::Device) -> ControlResult<Self> {
+        Self::new(device)
+    }
+
     fn assert_open(&self) -> ControlResult<()> {
         if self.is_opened() {
             Ok(())
